@@ -211,10 +211,26 @@ class BatchLoader(LoaderBase):
     ) -> DaskArrayList:
         """Construct batch loading tasks."""
         _backend = backend or Backend()
-        return DaskArrayList.concat(
-            loader.construct_loading_tasks(output_shape=output_shape, backend=_backend)
-            for loader in self.loaders
-        )
+        # NOTE: molecules of different tomograms may be interleaved (e.g. after sorting),
+        # so each task must be placed at the row of its own molecule.
+        image_ids = self.molecules.features[IMAGE_ID_LABEL].to_numpy()
+        tasks: list = [None] * len(image_ids)
+        for key in self.molecules.features[IMAGE_ID_LABEL].unique(maintain_order=True):
+            indices = np.where(image_ids == key)[0]
+            loader = SubtomogramLoader(
+                self._images[key],
+                self.molecules.subset(indices),
+                self.order,
+                self.scale,
+                self.output_shape,
+                self.corner_safe,
+            )
+            _tasks = loader.construct_loading_tasks(
+                output_shape=output_shape, backend=_backend
+            )
+            for i, task in zip(indices, _tasks):
+                tasks[i] = task
+        return DaskArrayList(tasks)
 
 
 class LoaderAccessor:
